@@ -408,7 +408,7 @@ Lemma prune_rec_tree_eq i rm ch :
   | None => Ok (Leaf rm)
   | Some k =>
       match nth k ch Empty with
-      | Empty => Panic 1373
+      | Empty => Panic 13005
       | Leaf l =>
           let* rm' := leaf_join_chk rm l in
           if all_empty (set_at k Empty ch) then Ok (Leaf rm')
